@@ -693,6 +693,48 @@ theorem nbns_names_eq_spec (n : UInt8) (rest : Bytes) :
          | none => .err .frameLen) :=
   parseNodeNameArray_eq_spec n rest
 
+/-- **a truncated NODE_NAME array is rejected** — as soon as fewer than `18 * NUM_NAMES` octets follow
+    the NUM_NAMES octet (in particular when exactly one octet is missing, RDLENGTH = 18 * NUM_NAMES):
+    `parseNodeNameArray` answers `ErrFrameLen`, `processNBNSNodeStatusResponse` an error, and the
+    record contributes no name to ProcessNBNS (`firstNodeName = none`, the scan moves on). -/
+theorem nbns_truncated_rejected (n : UInt8) (rest : Bytes) (h : rest.length < n.toNat * 18) :
+    parseNodeNameArray (n :: rest) = .err .frameLen ∧
+    (∃ e, nbnsNodeStatus (n :: rest) = .err e) ∧
+    firstNodeName (n :: rest) = none := by
+  refine ⟨?_, ?_, ?_⟩
+  · rw [nbns_names_eq_spec, if_pos h]
+  · rw [nbnsNodeStatus_cons]
+    by_cases h2 : rest.length < 2
+    · exact ⟨_, by rw [if_pos h2]⟩
+    · exact ⟨_, by rw [if_neg h2, if_pos h]⟩
+  · simp only [firstNodeName]
+    rw [if_pos (Or.inr h)]
+
+/-- **acceptance of a NODE_NAME array is decided by its length alone**: `parseNodeNameArray`
+    accepts exactly the byte strings that hold the NUM_NAMES octet and the `18 * NUM_NAMES` octets
+    it announces — never a panic, never an acceptance of a shorter array, never a rejection of a
+    complete one. -/
+theorem nbns_array_acceptance (b : Bytes) :
+    (∃ l, parseNodeNameArray b = .ok l) ↔ ∃ n rest, b = n :: rest ∧ n.toNat * 18 ≤ rest.length := by
+  constructor
+  · rintro ⟨l, hl⟩
+    cases b with
+    | nil => simp [parseNodeNameArray] at hl
+    | cons n rest =>
+      refine ⟨n, rest, rfl, ?_⟩
+      by_cases h : rest.length < n.toNat * 18
+      · rw [(nbns_truncated_rejected n rest h).1] at hl; cases hl
+      · omega
+  · rintro ⟨n, rest, rfl, h⟩
+    obtain ⟨l, hl⟩ := nodeNameArray_total n.toNat rest h
+    exact ⟨l, by rw [nbns_names_eq_spec, if_neg (by omega), hl]⟩
+
+/-- **the STATISTICS field is ignored**: whatever follows a complete array does not change the result. -/
+theorem nbns_statistics_ignored (n : UInt8) (rest stats : Bytes) (h : n.toNat * 18 ≤ rest.length) :
+    parseNodeNameArray (n :: (rest ++ stats)) = parseNodeNameArray (n :: rest) := by
+  rw [nbns_names_eq_spec, nbns_names_eq_spec, nodeNameArray_append _ _ _ h]
+  rw [if_neg (by simp only [List.length_append]; omega), if_neg (by omega)]
+
 /-- **processNBNSNodeStatusResponse = reference** on every input: RDATA shorter than 3 bytes or
     shorter than the array its NUM_NAMES octet announces is refused; otherwise the result is
     exactly the reference list of unique names (`nodeNameArray` cannot fail then). -/
@@ -871,6 +913,9 @@ example : decodeName [0x41, 65, 0] 0 1 = .err .other := by decide
 /-- truncated label -/
 example : decodeName [5, 65, 66] 0 1 = .err .parseFrame := by decide
 /-- node name array with a group name (flag 0x80) and a unique name -/
+-- one octet short (RDLENGTH = 18 * NUM_NAMES) is refused, the complete array accepted
+example : parseNodeNameArray ([1] ++ [87,79,82,75,71,82,79,85,80,32,32,32,32,32,32,32, 4]) = .err .frameLen := by decide
+example : parseNodeNameArray ([1] ++ [87,79,82,75,71,82,79,85,80,32,32,32,32,32,32,32, 4, 0]) = .ok [[87,79,82,75,71,82,79,85,80]] := by decide
 example : parseNodeNameArray ([2] ++ [71,32,32,32,32,32,32,32,32,32,32,32,32,32,32,32, 0x84,0] ++ [85,49,0,0,32,32,32,32,32,32,32,32,32,32,32,32, 4,0]) = .ok [[85,49,0,0]] := by decide
 /-- merge: a change is reported and nothing is erased by empty fields -/
 example : (NameEntry.merge { NameEntry.zero with name := [65], model := [66] } { NameEntry.zero with name := [67] })
